@@ -24,10 +24,37 @@ class CallGraph:
             for c in calls(f):
                 self.total += 1
                 g = callee(ctx, f, c)
+                if g is None and isinstance(c.func, ast.Name):
+                    # a local holding one of several callables: cls = A if flag else B; cls(...)
+                    alts = self._alternatives(ctx, f, c.func.id)
+                    if alts:
+                        for a in alts:
+                            out.append((c, a))
+                        continue
                 if g is None:
                     self.unresolved.append((f.fq, src(c.func, 60)))
                 out.append((c, g))
             self.edges[f.fq] = out
+
+    def _alternatives(self, ctx: Ctx, f: FunctionInfo, name: str) -> List[Any]:
+        from ..flow import locals_of
+        out: List[Any] = []
+        bs = locals_of(f).b.get(name, [])
+        if not bs:
+            return []
+        for b in bs:
+            if b.kind != "assign" or b.value is None:
+                return []
+            v = b.value
+            opts = [v.body, v.orelse] if isinstance(v, ast.IfExp) else (list(v.values) if isinstance(v, ast.BoolOp) else [v])
+            for o in opts:
+                if not isinstance(o, (ast.Name, ast.Attribute)):
+                    return []
+                r = ctx.p.resolve_expr(f.module, o)
+                if not isinstance(r, (FunctionInfo, ClassInfo)):
+                    return []
+                out.append(r)
+        return out
 
     def target(self, g: Any) -> Optional[FunctionInfo]:
         """The function a call to *g* runs: a constructor call runs __init__ (and __new__) along the MRO."""
